@@ -612,7 +612,9 @@ func genSt(r *vc.Rand, thorough bool) []caseLine {
 		func() stEvent { return stEvent{kind: "cl"} },
 		func() stEvent { return stEvent{kind: "f", tid: foreignFor(r, me), ty: 1, n: 2, seed: r.Intn(256)} },
 		func() stEvent { return stEvent{kind: "f", tid: foreignFor(r, me), ty: vc.Pick(r, []int{3, 9}), n: 0} },
-		func() stEvent { return stEvent{kind: "f", tid: me, ty: vc.Pick(r, unknownTypes), n: 2, seed: r.Intn(256)} },
+		func() stEvent {
+			return stEvent{kind: "f", tid: me, ty: vc.Pick(r, unknownTypes), n: 2, seed: r.Intn(256)}
+		},
 		func() stEvent { return stEvent{kind: "f", tid: me, ty: 1, n: 0} },
 	}
 	var seqs [][]int
